@@ -10,6 +10,7 @@
   extension block, which the format cannot exceed.
 -/
 import Rtp.Proofs.PacketRtPacket
+import Rtp.Proofs.PacketRtSpec
 import Rtp.Pred.C01
 namespace Rtp.Props.C01
 open Rtp Rtp.Model Rtp.Pred.C01 Rtp.Proofs.PacketRt
@@ -73,6 +74,20 @@ theorem c01_wire_form (p : Packet) (hwf : wfP p = true) :
         (p.payload ++ padBytes p))) := by
   rw [pktMarshal_wf p hwf]; simp [pktWire, hdrWire, hdrBytes]
 
+/-- What Marshal produces, octet by octet, is the RFC 3550 / RFC 8285 layout written down
+    independently with plain arithmetic in Rtp/Spec/CoreaWire.lean (V·64 + P·32 + X·16 + CC,
+    M·128 + PT, network byte order by / and %, one-byte element header id·16 + (len − 1), …).
+    Together with the round trip this pins the decoder too: a mistake mirrored in encoder and
+    decoder would survive the round trip, but not this theorem. -/
+theorem c01_wire_is_spec (p : Packet) (hwf : wfP p = true) :
+    ∃ bs, pktMarshal p = .ok bs ∧ bs.map (·.toNat) = Spec.CoreaWire.packet p :=
+  ⟨pktWire p, pktMarshal_wf p hwf, packet_octets p hwf⟩
+
+/-- the same for the header alone -/
+theorem c01_header_wire_is_spec (h : Header) (hwf : wfH h = true) :
+    ∃ bs, hdrMarshal h = .ok bs ∧ bs.map (·.toNat) = Spec.CoreaWire.header h :=
+  ⟨hdrWire h, hdrMarshal_wf h hwf, header_octets h hwf⟩
+
 /-- Marshal is injective on well-formed packets up to the canonical observation: two packets with
     the same wire image have the same fields (a decoder cannot confuse them). -/
 theorem c01_marshal_injective (p q : Packet) (hp : wfP p = true) (hq : wfP q = true)
@@ -119,6 +134,10 @@ example : wfP exFlush = true := by decide +kernel
 example : pktMarshalSize exFlush = 96 := by decide +kernel
 example : (pktMarshal exFlush).isOk = true := by decide +kernel
 example : (match pktMarshal exFlush with | .ok bs => pktUnmarshal {} bs | _ => .panic) = .ok exFlush := by decide +kernel
+
+/-- the spec image of `exFlush` starts 0x9F 0xFF 0xFF 0xFF: V=2,X=1,CC=15 | M=1,PT=127 | seq 65535 -/
+example : (Spec.CoreaWire.packet exFlush).take 4 = [0x9F, 0xFF, 0xFF, 0xFF] := by decide +kernel
+example : (Spec.CoreaWire.packet exFlush).length = 96 := by decide +kernel
 
 /-- a padding-only packet (no payload, 255 bytes of padding) -/
 def exPadOnly : Packet :=
